@@ -71,6 +71,9 @@ def build_pix(r):
     kw = {'meta': meta, 'visual': vis}
     if k == 'compound':
         a, b = build_pix(r['a']), build_pix(r['b'])
+        if r['inc'] == 'absent' and r['a']['inc'] != 'absent':
+            # the compound has its own, explicitly empty, meta while its first operand is excluded
+            return R.CompoundPixelRegion(a, b, OPS[r['op']], meta=RegionMeta(), visual=RegionVisual())
         return R.CompoundPixelRegion(a, b, OPS[r['op']], **kw)
     c = PixCoord(r['cx'] / U, r['cy'] / U)
     if k == 'circle':
@@ -187,6 +190,28 @@ def check_state(ctx, st, idx, pid='C06'):
     if why:
         ctx.violation(sig + f'roundtrip-sky|{kindsig(r)}', f'sky -> pixel -> sky -> pixel drifts: {why}', case)
         return True
+    # sky -> pixel -> sky starting from a sky compound built directly, with its own explicitly empty meta
+    if r['k'] == 'compound':
+        import regions as R
+        from regions import RegionMeta, RegionVisual
+        try:
+            with warnings.catch_warnings():
+                warnings.simplefilter('ignore')
+                skyc = R.CompoundSkyRegion(sky.region1, sky.region2, sky.operator, meta=RegionMeta(), visual=RegionVisual())
+                pixc = skyc.to_pixel(wcs)
+                g = np.arange(0.0, 22.0, 1.5)
+                gx, gy = [v.ravel() for v in np.meshgrid(g + r['a'].get('cx', 40) / U - 10, g + r['a'].get('cy', -24) / U - 10)]
+                a1 = np.asarray(skyc.contains(wcs.pixel_to_world(gx, gy), wcs))
+                a2 = np.asarray(pixc.contains(PixCoord(gx, gy)))
+            if dict(pixc.meta) != dict(skyc.meta) or dict(pixc.visual) != dict(skyc.visual):
+                ctx.violation(sig + f'sky-first-meta|{kindsig(r)}', f'sky compound with meta {dict(skyc.meta)} converts to a pixel compound with meta {dict(pixc.meta)}', case)
+                return True
+            if (a1 != a2).mean() > 0.2:
+                ctx.violation(sig + f'sky-first-member|{kindsig(r)}', 'a sky compound and its pixel image disagree on most positions (include sense changed by the conversion)', case)
+                return True
+        except Exception as ex:  # noqa
+            ctx.violation(sig + f'sky-first-raises|{kindsig(r)}|{type(ex).__name__}', f'sky compound conversion raised {ex!r}', case)
+            return True
     # membership: the sky region and its pixel image answer alike (positions near the boundary excluded)
     if r['k'] not in ('point', 'line', 'text') and idx % 2 == 0:
         g = np.arange(-2.0, 24.0, 1.25)
